@@ -96,11 +96,12 @@ def parse_by_voice(file: list, dtype=np.object_):
     for i, line in enumerate(file):
         for v in range(voices):
             indices_to_remove.append([i, v])
-        if any([line[v] == "*^" for v in range(voices)]):
-            voices += 1
-        elif sum([(line[v] == "*v") for v in range(voices)]):
-            sum_vred = sum([line[v] == "*v" for v in range(voices)]) // 2
-            voices = voices - sum_vred
+        # every "*^" adds a sub-spine, every run of k adjacent "*v" joins k sub-spines into one
+        splits = sum([line[v] == "*^" for v in range(voices)])
+        joins = sum(
+            [line[v] == "*v" and line[v - 1] == "*v" for v in range(1, voices)]
+        )
+        voices = voices + splits - joins
 
     voice_indices = np.array(indices_to_remove)
     num_voices = voice_indices[:, 1].max() + 1
